@@ -266,6 +266,7 @@ def run(prog, chk):
                          "%s passes text derived from %s to %s at %s: the *content* of an expansion is parsed as shell syntax again" % (fn, hit, bc, b.loc(t.line)))
     chk.floor("R4.5", "parser sink call sites in brush_core::expansion", nsinks, 8)
     glob_activity_rule(prog, chk)
+    positional_join_rule(prog, chk)
 
 
 GLOB_DETECTOR = "brush_parser::pattern::pattern_has_glob_metacharacters"
@@ -379,3 +380,63 @@ def _flag_pair(chk, b, rid, around, value=1):
             chk.fail(rid, fn, "quote-flag-not-restored", "%s: a path from `in_double_quotes = %s` reaches Return without restoring the flag: later words are expanded with the wrong quoting state (%s)" % (fn, bool(value), p))
         else:
             chk.ok(rid, "quote-flag-pair:" + fn.rsplit("::", 1)[-1], "flag restored on every path (error exits included)", function=fn)
+
+
+def positional_join_rule(prog, chk):
+    """R4.7: lists of fields / array elements are joined by position. The separator of `"$*"`, `"${a[*]}"` and scalar joins sits between
+    every two neighbours, empty ones included; a loop that decides "not the first element" by looking at whether the text accumulated so
+    far is non-empty drops the separators that follow leading empty elements (`set -- "" "" x; IFS=:; echo "$*"` → `x` instead of `::x`).
+    Flagged shape, inside one source loop of a body of brush_core::{expansion,variables}: accumulator A receives `push`/`push_str` of a
+    separator on the non-empty edge of `A.is_empty()` / `A.len()`, and A also receives the loop's element."""
+    from dataflow import base_local
+    chk.rule("R4.7", "no join loop in the expansion / variable code places its separator according to whether the accumulated text is empty "
+                     "(joins are positional: Itertools::join / intersperse / index tests)")
+    nloops = 0
+    njoins = 0
+    for b in prog.all_bodies({"brush_core"}):
+        fn = owner(b.name)
+        if not (fn.startswith(("brush_core::expansion::", "brush_core::variables::", "<brush_core::expansion::", "<brush_core::variables::"))):
+            continue
+        for _, t in b.calls():
+            if (t.best_callee() or t.callee or "").endswith(("Itertools::join", "Itertools::intersperse", "[T]::join", "Iterator::intersperse")):
+                njoins += 1
+        c = cfg_of(b)
+        loops = c.source_loops()
+        if not loops:
+            continue
+        d = defs_of(b)
+        for h, blks in loops.items():
+            pushes = [(bb, t) for bb, t in b.calls() if bb in blks and (t.best_callee() or "") in ("alloc::string::String::push", "alloc::string::String::push_str")]
+            if not pushes:
+                continue
+            nloops += 1
+            for bb, t in pushes:
+                acc = base_local(b, d, t.args[0])
+                if acc is None:
+                    continue
+                others = [x for x, t2 in pushes if x != bb and base_local(b, d, t2.args[0]) == acc]
+                if not others:
+                    continue
+                for g in blks:
+                    tt = b.blocks[g].term
+                    if tt.kind != "switch" or g == bb or not c.dominates(g, bb):
+                        continue
+                    for o in origins(b, d, tt.discr, through_ops=True):
+                        if o.kind == 'call' and (o.node.best_callee() or "").endswith(("String::is_empty", "String::len", "str::is_empty", "str::len")) \
+                                and base_local(b, d, o.node.args[0]) == acc:
+                            # which edge leads to the push? is_empty == false / len != 0
+                            f_edge, t_edge = [x for v, x in tt.targets if v == 0], tt.otherwise
+                            empty_call = (o.node.best_callee() or "").endswith("is_empty")
+                            negated = any(x.kind == 'op' and x.node.kind == 'un' for x in origins(b, d, tt.discr, through_ops=False))
+                            nonempty_edge = (f_edge[0] if f_edge else None) if (empty_call and not negated) else t_edge
+                            if empty_call and negated:
+                                nonempty_edge = t_edge
+                            if nonempty_edge is not None and bb in c.reachable_from(nonempty_edge, avoid=[g]) and \
+                                    not all(bb in c.reachable_from(s, avoid=[g]) for s in c.succ[g]):
+                                chk.fail("R4.7", fn, "separator-by-accumulated-emptiness:" + (b.local_name(acc) or "acc"),
+                                         "%s joins elements in a loop and inserts the separator only when `%s` is already non-empty (line %s): separators after "
+                                         "leading empty elements are lost — with two empty leading positional parameters and IFS=: the quoted $* prints `x`, not `::x`"
+                                         % (fn, b.local_name(acc) or "the accumulator", t.line))
+    chk.note("expansion_loops_with_string_pushes", nloops)
+    chk.floor("R4.7", "positional joins (join / intersperse) in expansion and variable code", njoins, 3)
+    chk.ok("R4.7", "joins-are-positional", "%d loops that push to a String examined; %d positional joins" % (nloops, njoins), function="brush_core::expansion")
